@@ -2,6 +2,10 @@
 // preceded by a simhook call gets a lock gate: `simhook.Gate("auto:<file>:<line>", &<mutex expr>, <read?>)`, and so
 // that the place where another goroutine classically gets in - right after a mutex is released (non-deferred
 // Unlock/RUnlock) - gets a yield point `simhook.Yield("auto:unlock:<file>:<line>")`.
+// Goroutines started by the library (`go func() {...}()` literals) get `simhook.Yield("auto:go:<file>:<line>")` as
+// their first statement - the simulator may adopt the new goroutine there as a task of its own, so that *when* a pump,
+// watcher or handler goroutine gets to run is a scheduling decision too - and every `for` loop inside such a literal gets
+// a yield at the top of its body (`auto:loop:<file>:<line>`), so that an adopted pump can be preempted between items.
 // (Yields in front of select statements were tried and dropped: they park a sender between taking the listener's lock
 // and its select, and when it resumes with both the cancellation and a receiver ready the Go runtime picks the case at
 // random - outside the simulator's control, so such runs do not replay.)
@@ -46,7 +50,7 @@ func main() {
 				return nil
 			}
 			src, err := os.ReadFile(path)
-			if err != nil || !(bytes.Contains(src, []byte("Lock()"))) {
+			if err != nil || !(bytes.Contains(src, []byte("Lock()")) || bytes.Contains(src, []byte("go func"))) {
 				return nil
 			}
 			if rewritten, n := rewrite(rel, src); n > 0 {
@@ -172,6 +176,38 @@ func rewrite(rel string, src []byte) ([]byte, int) {
 		case *ast.CommClause:
 			b.Body = fix(b.Body)
 		}
+		return true
+	})
+	// goroutine literals: a yield as first statement, and at the top of every loop inside them
+	ast.Inspect(f, func(node ast.Node) bool {
+		gs, ok := node.(*ast.GoStmt)
+		if !ok {
+			return true
+		}
+		lit, ok := gs.Call.Fun.(*ast.FuncLit)
+		if !ok || lit.Body == nil {
+			return true
+		}
+		if len(lit.Body.List) == 0 || !isHookCall(lit.Body.List[0]) {
+			lit.Body.List = append([]ast.Stmt{yield("go", gs.Pos())}, lit.Body.List...)
+			n++
+		}
+		ast.Inspect(lit.Body, func(inner ast.Node) bool {
+			var body *ast.BlockStmt
+			switch l := inner.(type) {
+			case *ast.ForStmt:
+				body = l.Body
+			case *ast.RangeStmt:
+				body = l.Body
+			case *ast.FuncLit:
+				return l == lit // loops of nested function literals are not the goroutine's own
+			}
+			if body != nil && (len(body.List) == 0 || !isHookCall(body.List[0])) {
+				body.List = append([]ast.Stmt{yield("loop", inner.Pos())}, body.List...)
+				n++
+			}
+			return true
+		})
 		return true
 	})
 	if n == 0 {
